@@ -12,6 +12,12 @@ CHECKS = {
    note="SHA-256 / rs_merkle collision freedom; nothing claimed beyond the length bound.",
    technique="bounded exhaustive enumeration of all input pairs against a reference (prefix) model, executed on the real CommitTree/CommitProof code",
    design_ref="DESIGN.md §5 C08"),
+ "C10": dict(engine="cryptx", level="exploration",
+   text="Complete enumeration, on the real cipher / KDF / vault code, of: every single-bit flip of nonce and ciphertext, every truncation, extensions, nonce-kind swap and every cross-splice within a pool of packs, per cipher and plaintext length (incl. empty); all ordered pairs of a password x salt x seed x KDF pool (keys distinct, cross decrypt fails); every access-point history up to the depth over unlock-right/unlock-wrong/lock/create/read/update (a wrong password never unlocks, nothing is ever written or read under a wrong key); nonce freshness over repeated encryptions and over every blob stored by the hist engine's account histories; age/X25519 round trip, wrong identity and bit flips.",
+   note="AEAD/KDF primitives and the OS RNG are trusted; multi-MB plaintexts are not mutated exhaustively; RNG nonce uniqueness beyond the explored executions is a probabilistic claim outside this technique.",
+   technique="bounded exhaustive enumeration of mutations / key pairs / access-point operation sequences on the real code",
+   design_ref="DESIGN.md §5 C10"),
+
  "C06": dict(engine="logx", level="model_checking",
    text="Explicit-state breadth-first search over the real FileSystemEventLog and DatabaseEventLog driven in lock-step through the EventLog trait: three co-resident folder logs (two accounts sharing one SQLite table / directory tree), byte-identical events within and across logs, every operation of the trait (append, records with an old time, checked/unchecked patch, rewind to every index, clear, replace-all). After every transition every log is re-opened from storage and compared with the live tree and with a vector model (leaves, root, order, timestamps, reverse iteration, diff_records), untouched logs must be unchanged and both backends must agree. All states up to the depth bound are visited; every transition is an execution of the implementation.",
    note="State abstraction = per-log sequence of event letters; SQLite and the OS file system are trusted; depth bound 3 (quick) / 5 (thorough); folder logs only (the other log types share the same generic implementation).",
